@@ -894,7 +894,7 @@ bool Builder::StartEdge(Edge* edge, string* err) {
   // Create response file, if needed
   // XXX: this may also block; do we care?
   string rspfile = edge->GetUnescapedRspfile();
-  if (!rspfile.empty()) {
+  if (!rspfile.empty() && !config_.dry_run) {
     string content = edge->GetBinding("rspfile_content");
     if (!disk_interface_->WriteFile(rspfile, content, true))
       return false;
@@ -923,7 +923,9 @@ bool Builder::FinishCommand(BuildResult::CommandCompleted& result,
   vector<Node*> deps_nodes;
   string deps_type = edge->GetBinding("deps");
   const string deps_prefix = edge->GetBinding("msvc_deps_prefix");
-  if (!deps_type.empty()) {
+  // A dry run executed nothing, so there is no dependency information to
+  // read (and no depfile of ours to delete).
+  if (!deps_type.empty() && !config_.dry_run) {
     string extract_err;
     if (!ExtractDeps(result, deps_type, deps_prefix, &deps_nodes,
                      &extract_err) &&
@@ -990,7 +992,7 @@ bool Builder::FinishCommand(BuildResult::CommandCompleted& result,
 
   // Delete any left over response file.
   string rspfile = edge->GetUnescapedRspfile();
-  if (!rspfile.empty() && !g_keep_rsp)
+  if (!rspfile.empty() && !g_keep_rsp && !config_.dry_run)
     disk_interface_->RemoveFile(rspfile);
 
   if (scan_.build_log()) {
